@@ -57,7 +57,7 @@ CHECKS["C11"] = dict(
     engine="seq",
     category="exploration",
     technique="bounded exhaustive enumeration of inputs against an independent reference encoder (Engine.IO v4), round trips, and an allocation meter in a memory-capped subprocess",
-    text="Single packets (all types x every payload of length <= 2 over 256 byte values plus base64 padding classes x binary/base64 modes), payloads of 0-3(4) packets over a 13-packet alphabet, every WebTransport frame length in the three prefix forms (0..70000 in thorough) in three read compositions with a following frame to catch desynchronisation, every byte string of length <= 2(3) into all decoders, and hostile length headers under an allocation meter (limit + 64 KiB) in a ulimit-capped worker. Oracles: bytes equal a reference encoder written from the v4 protocol, decode(encode(p)) = p, EncodedLen = bytes written, no panic, allocation bounded by the configured limit.",
+    text="Single packets (all types x every payload of length <= 2 over 256 byte values, and a byte pattern of every length 3..4200 plus the neighbourhoods of 8/16/32/48/64 KiB and 70000, x binary/base64 modes), payloads of 0-3(4) packets over a 13-packet alphabet, every WebTransport frame length in the three prefix forms (0..70000 in thorough) in three read compositions with a following frame to catch desynchronisation, every byte string of length <= 2(3) into all decoders, and hostile length headers under an allocation meter (limit + 64 KiB) in a ulimit-capped worker. Oracles: bytes equal a reference encoder written from the v4 protocol, decode(encode(p)) = p, EncodedLen = bytes written, no panic, allocation bounded by the configured limit.",
     note="Trusted: the reference encoder in harness/c11/ref.go (self-tested against the protocol document's examples). Plain build (no scheduler).",
     design="3/C11")
 
@@ -147,7 +147,7 @@ CHECKS["C16"] = dict(
     engine="vsched",
     category="model_checking",
     technique="stateless model checking of two-thread API programs under a controlled scheduler in a -race build: the race detector judges every explored schedule under its true happens-before relation; deadlock and held-mutex detection by the scheduler",
-    text="Every unordered pair (including an operation with itself) of operations from a 26-operation server alphabet (Emit with/without ack/binary, Join, Leave, Rooms, namespace and room broadcasts, On/Off handlers, Use, Disconnect(false/true), SocketsJoin, DisconnectSockets, FetchSockets, Server.Close, incoming events/acks/binary events/DISCONNECT/transport close, another client's CONNECT), an 18-operation Go-client alphabet (a Manager with two connected sockets; incl. a third namespace connecting, the other socket disconnecting and the link breaking, which starts the reconnection machinery) and an 8-operation adapter alphabet (in-memory and session-aware) runs as a two-thread program; every server operation is also issued from inside an event handler, a disconnecting handler and an ack callback against concurrent operations (about 850 programs). All schedules to the deviation bound are executed in a -race build in which the scheduler's own hand-offs are hidden from TSan and every modelled primitive publishes exactly its Go-memory-model edge, so a report is a race under the explored schedule's real happens-before relation; verdicts: TSan report whose racing access lies in repository code, a thread blocked for ever on a lock/WaitGroup (incl. lock cycles and locks held by exited threads), a mutex held by an exited thread at quiescence, an uncaught panic.",
+    text="Every unordered pair (including an operation with itself) of operations from a 26-operation server alphabet (Emit with/without ack/binary, Join, Leave, Rooms, namespace and room broadcasts, On/Off handlers, Use, Disconnect(false/true), SocketsJoin, DisconnectSockets, FetchSockets, Server.Close, incoming events/acks/binary events/DISCONNECT/transport close, another client's CONNECT), an 18-operation Go-client alphabet (a Manager with two connected sockets; incl. a third namespace connecting, the other socket disconnecting and the link breaking, which starts the reconnection machinery) and a 10-operation adapter alphabet (in-memory and session-aware; incl. a Broadcast whose argument cannot be encoded, recovered by the caller) runs as a two-thread program; every server operation is also issued from inside an event handler, a disconnecting handler and an ack callback against concurrent operations (about 850 programs). All schedules to the deviation bound are executed in a -race build in which the scheduler's own hand-offs are hidden from TSan and every modelled primitive publishes exactly its Go-memory-model edge, so a report is a race under the explored schedule's real happens-before relation; verdicts: TSan report whose racing access lies in repository code, a thread blocked for ever on a lock/WaitGroup (incl. lock cycles and locks held by exited threads), a mutex held by an exited thread at quiescence, an uncaught panic.",
     note="Trusted: the TSan integration (self-tested by harness/racetest at set-up: locked pair silent, unlocked pair reported); channel operations publish a slightly stronger edge than Go guarantees (can hide, never invent a race); memory-order effects beyond happens-before are not produced. Scope: 2 threads x 1 operation, bound 1 (quick) / 2 (thorough); the quantifier's random 2..16-goroutine programs and GOMAXPROCS variation are replaced by exhaustive small-scope enumeration.",
     design="3/C16")
 
